@@ -150,11 +150,12 @@ def wrapper_part(rep, tier, rng, bad):
         doc_keys = [kv for kv in ms if kv[0] in CONTROL or kv[0] == "BibTeX"]
         ms2 = doc_keys + [kv for kv in ms2 if kv[0] in OTHER]
         ms1 = doc_keys + [kv for kv in ms if kv[0] in OTHER]
-        hasvar = rng.random() < 0.25
+        hasvar = rng.random() < 0.25 or bi < 8           # (the first bodies always use variables, with each kind of value once)
         if hasvar:
             # metadata values used as variables in the body: a documented channel, so the body may change with them -
             # but the wrapper switch must still leave it alone (values with a hard line break, reserved characters ...)
-            tv = rng.choice(["Plain title", "First line\\\n    Second line", "A & B <c>", "Ünï \"q\""])
+            TVS = ["Plain title", "First line\\\n    Second line", "A & B <c>", "Ünï \"q\""]
+            tv = TVS[bi % 4] if bi < 8 else rng.choice(TVS)
             # (keys with digits, hyphens, underscores and dots too: every writer must look them up under the same name)
             ckey, cvar = rng.choice([("Custom Key", "customkey"), ("build-id", "build-id"), ("Version2", "version2"), ("x_y", "x_y"), ("a.b", "a.b"), ("Rev 3", "rev3")])
             ms1 = [kv for kv in ms1 if kv[0] not in ("Title", ckey)] + [("Title", tv), (ckey, rng.choice(["v1", "x\\\n    y"]))]
@@ -162,7 +163,7 @@ def wrapper_part(rep, tier, rng, bad):
             b = b + ("\n\nTitle is [%%title] and key is [%%%s] and again [%%title].\n" % cvar).encode()
             bs[bi] = b
         ext = rng.choice(exts)
-        for fmt in (FORMATS if tier != "quick" else rng.sample(FORMATS, 2)):
+        for fmt in (FORMATS if tier != "quick" else (rng.sample(FORMATS, 2) if bi >= 8 else sorted(set(["html", "latex"] + rng.sample(FORMATS, 1))))):
             for name, text, sw in [("S", meta_text(ms1) + b, "snippet"), ("F", meta_text(ms1) + b, "complete"), ("D", meta_text(ms1) + b, ""),
                                    ("S2", meta_text(ms2) + b, "snippet"), ("SY", meta_text(ms1, yaml=True) + b, "snippet")]:
                 jobs.append((text, fmt, ext | (E[sw] if sw else 0), 0)); idx.append((bi, fmt, name, ms1, ms2, ext))
